@@ -19,6 +19,34 @@ CHECKS = {
         'gives.',
         'stubs: gmpy isqrt/is_square/gcd by exact contract, LLL / pow / cube '
         'root / convergent lists havocked; bounds per job in evidence'),
+ 'C03': (
+        True, '5/C03',
+        'symbolic execution of the real BatchGCD/ExtendedProductTree on z3 Int '
+        'proxies; per leaf z3 decides the polynomial identity '
+        'remainder[v_i:=0] == product of the other distinct values',
+        'Bounded symbolic model checking: for every batch size 0..66 (quick) / '
+        '0..130 (thorough) of pairwise distinct symbolic moduli, every leaf, '
+        'and for every equality pattern of batches up to 4 (5), z3 shows that '
+        'the value handed to gcd is congruent to the product of the other '
+        'distinct moduli; check-level verdict/bookkeeping for batches 0..2 (3) '
+        'with BatchGCD by contract. Tree-shape bugs live at particular sizes, '
+        'so every size is decided by the solver.',
+        'gmpy.gcd uninterpreted (arguments recorded); Euclid step lemma '
+        'discharged in bounded form; quotient witnesses free (any quotient '
+        'keeps the congruence)'),
+    'C04': (
+        True, '5/C04',
+        'symbolic execution of the real FermatFactor on z3 Int proxies with '
+        'the parametrisation n = (isqrt(n)+1+j)^2 - d^2; z3 shows every path '
+        'that misses the pair is infeasible',
+        'Bounded symbolic model checking of the Fermat clause: for every odd '
+        'n = p*q >= 2^63 (unbounded) whose (p+q)/2 - ceil(sqrt n) equals j, for '
+        'each j below the step bound K (K = 8 quick, 24 thorough, plus the last '
+        'admissible step for several K), the function returns a pair at a step '
+        '<= j; conversely any returned pair lies inside the bound. Clauses 2-4 '
+        'are outside (see DESIGN).',
+        'gmpy isqrt/is_square by exact contract; isqrt-uniqueness lemma proved '
+        'as a schema; primality not assumed'),
 }
 
 NOT_APPLICABLE = {
